@@ -200,6 +200,42 @@ Example C10_realloc_meta_fixed_on_new_file :
    rc_of r = IWFS_ERROR_FSM_SEGMENTATION /\ state_of r = fresh v_fixed true /\ (addr_of r, len_of r) = (4096, 4096)).
 Proof. exact realloc_meta_fixed_on_new_file. Qed.
 
+(* ---- round 7: reallocate of a range the caller does not own (fixes/fsm-realloc-recheck.diff).  The guard of the old range is
+   evaluated before the new region is allocated; that allocation may grow the bitmap and put it INTO a free "old region" *)
+Theorem C10_realloc_unowned_refuted : exists s, strict s = true /\ all_range (bm s) 128 256 false = true /\
+  (let r := reallocate s 3145728 8192 16384 1 false in
+   rc_of r = 0 /\ (bmoff (state_of r), bmlen (state_of r)) = (8192, 8192) /\ getb (bm (state_of r)) 128 = false /\
+   ~ BmArea (state_of r)).
+Proof. exact realloc_unowned_refuted. Qed.
+Print Assumptions C10_realloc_unowned_refuted.
+Theorem C10_realloc_strict_unowned_refused : forall s nlen addr olen opts ovr, fx_recheck (vr s) = true -> strict s = true ->
+  Z.land addr (blkmask s) = 0 -> Z.land olen (blkmask s) = 0 -> 0 <= nlen ->
+  blk_of s olen < shr (IW_ROUNDUP nlen (pow2 (bpow s))) (bpow s) ->
+  0 <= blk_of s addr -> 0 <= blk_of s olen -> blk_of s addr + blk_of s olen <= nbits s -> len_z (bm s) = nbits s ->
+  (exists i, blk_of s addr <= i < blk_of s addr + blk_of s olen /\ getb (bm s) i = false) ->
+  let '(rc, s', a, l) := reallocate s nlen addr olen opts ovr in rc <> 0 /\ s' = s /\ a = addr /\ l = olen.
+Proof. exact realloc_strict_unowned_refused. Qed.
+Print Assumptions C10_realloc_strict_unowned_refused.
+Theorem C10_realloc_negative_refused : forall s nlen addr olen opts ovr, fx_recheck (vr s) = true -> nlen < 0 ->
+  let '(rc, s', a, l) := reallocate s nlen addr olen opts ovr in rc <> 0 /\ s' = s /\ a = addr /\ l = olen.
+Proof. exact realloc_negative_refused. Qed.
+Print Assumptions C10_realloc_negative_refused.
+Theorem C10_realloc_negative_refuted : exists s, getb (bm s) 128 = true /\
+  (let r := reallocate s (-1) 8192 4096 0 false in rc_of r = 0 /\ len_of r = 0 /\ getb (bm (state_of r)) 128 = false).
+Proof. exact realloc_negative_refuted. Qed.
+Print Assumptions C10_realloc_negative_refuted.
+(* after the patch: strict - refused, nothing changes; non-strict - refused, the bitmap has grown but is intact, the new region
+   is given back (the state predicate is kept in every case: C10_reallocate_every_flag covers the patched code) *)
+Example C10_realloc_unowned_fixed :
+  (let r := reallocate (snd (open_new_max v_fixed 6 0 0 0 true)) 3145728 8192 16384 1 false in
+   (rc_of r, bmlen (state_of r), tree (state_of r)) = (IWFS_ERROR_FSM_SEGMENTATION, 4096, [(62, 2); (32640, 128)])) /\
+  (let r := reallocate (snd (open_new_max v_fixed 6 0 0 0 false)) 3145728 8192 16384 1 false in
+   (rc_of r, bmoff (state_of r), bmlen (state_of r), tree (state_of r)) =
+   (IWFS_ERROR_FSM_SEGMENTATION, 8192, 8192, [(126, 2); (65280, 256)]) /\ getb (bm (state_of r)) 128 = true) /\
+  rc_of (reallocate (state_of (allocate (snd (open_new_max v_fixed 6 0 0 0 false)) 4096 0 11 false)) (-1) 8192 4096 0 false)
+    = FSM_IW_ERROR_INVALID_ARGS.
+Proof. exact realloc_unowned_fixed. Qed.
+
 (* ---- the address hint is a hint (reported on the unchanged library; fixes/fsm-alloc-overflow.diff).  After the patch - or for
    any hint below 2^32 blocks - a request that is not page aligned is served from the current bitmap whenever SOME free run is
    long enough; _fsm_find_matching_fblock_lw is complete (C11_lookup_complete) *)
